@@ -103,7 +103,7 @@ def evaluate_chunk(args):
     with open(inp, "w") as f:
         json.dump({"programs": [{k: v for k, v in p.items() if k != "_ast"} for p in progs]}, f)
     r = common.run([vapi, "c11", inp, outp], timeout=1800, cpu_s=1200, as_bytes=4 << 30)
-    res = {"ambiguous_skipped": ambiguous, "programs": 0, "rejected": 0, "evaluations": 0, "nontrivial": 0, "violations": [], "inconclusive": [], "reject_samples": [], "systems": 0,
+    res = {"ambiguous_skipped": ambiguous, "programs": 0, "rejected": 0, "evaluations": 0, "nontrivial": 0, "violations": [], "inconclusive": [], "reject_samples": [], "samples": [], "systems": 0,
            "rule_types": {}, "lookups": 0}
     if r.timed_out:
         res["inconclusive"].append({"chunk": chunk, "why": "watchdog"})
@@ -149,6 +149,9 @@ def evaluate_chunk(args):
                 res["evaluations"] += 1
                 if want != fmt(s, [[0, 0, 0, 0]] * len(s)):
                     res["nontrivial"] += 1
+                    if len(res["samples"]) < 2 and len(s) >= 3 and want == gotline:
+                        res["samples"].append({"program": p["id"], "system": sysname, "features": mode, "string": " ".join(s), "both_give": want,
+                                               "fea_head": p["fea"][:400]})
                 if want != gotline and bad < 3:
                     bad += 1
                     res["violations"].append({"sig": "shaping-differs", "what": f"program {p['id']} under {sysname} features {mode} alternate {alt}: string {' '.join(s)} -> compiled tables give [{gotline}] but the feature file says [{want}]",
@@ -169,6 +172,7 @@ def run(tier):
     tot = {"ambiguous_skipped": 0, "programs": 0, "rejected": 0, "evaluations": 0, "nontrivial": 0, "systems": 0, "lookups": 0}
     types = {}
     rejects = []
+    samples = []
     with ProcessPoolExecutor(max_workers=common.NCPU) as ex:
         for res in ex.map(evaluate_chunk, jobs):
             for k in tot:
@@ -176,12 +180,13 @@ def run(tier):
             for k, v in res["rule_types"].items():
                 types[k] = types.get(k, 0) + v
             rejects += res["reject_samples"]
+            samples += res["samples"][:1]
             for inc in res["inconclusive"]:
                 chk.inconc(inc)
             for v in res["violations"]:
                 chk.violation("c11:" + v["sig"], v["what"], replay={"fea": v["prog"], "string": v.get("string"), "system": v.get("system"), "mode": v.get("mode")})
     chk.coverage.update({"evaluations": tot["evaluations"], "distinct_nontrivial": tot["nontrivial"], "rule": RULE,
-                         "samples": [{"rejected_program": r} for r in rejects[:2]],
+                         "samples": samples[:3] + [{"rejected_program": r} for r in rejects[:2]],
                          "c11_programs_compiled": tot["programs"] - tot["rejected"], "c11_programs_rejected_by_compiler": tot["rejected"], "c11_programs_skipped_ambiguous": tot["ambiguous_skipped"],
                          "c11_system_mode_runs": tot["systems"], "c11_compiled_lookups": tot["lookups"], "c11_model_lookups_by_type": types})
     chk.assumptions += ["programs the compiler rejects are counted, not judged (the generator aims at well-formed input)",
